@@ -816,7 +816,9 @@ STRUCT_PROGRAMS = {
     "DictBuilder": [("def h := [1, 5]\ndef i: Dict[Int, Int] := { x => x + 10 | x in h, x > 3 }\nprint(i[5])", "15")],
     "With": [],
     "FunArg": [("def f(x: Int, y: Int := 3) -> Int => x - y\nprint(f(10))\nprint(f(10, 1))", "7\n9"),
-               ("def f(vararg xs: Int) -> Int => 3", "3", "print(f(1, 2, 3))")],
+               ("def f(vararg xs: Int) -> Int => 3", "3", "print(f(1, 2, 3))"),
+               ("class Bag(vararg items: Int)\n    def count: Int := 0\n    def add(self, first: Int, vararg more: Int) -> Int => first", "0 7",
+                "b = Bag(1, 2, 3); print(b.count, b.add(7, 8, 9))")],
     "FunDef": [("def f() -> Int => 3\nprint(f())", "3"), ("def f(x: Int) => print(x)\nf(4)", "4")],
     "VariableDef": [("def x := 4\nprint(x)", "4"), ("class A(def v: Int := 5)\ndef a := A()\nprint(a.v)", "5"),
                     ("def x: Int\nx := 5\nprint(x)", "5")],
